@@ -56,7 +56,9 @@ enum Perturb
     PERT_GA,
     PERT_GJ,
     PERT_GS,
-    PERT_GT
+    PERT_GT,
+    PERT_TIME_OMIT,   // the time cost returns its value but never fills its gradient (left all zero)
+    PERT_WP_OMIT_ROW  // the waypoint cost forgets the gradient row pert_index (left zero)
 };
 
 struct CostProgram
@@ -89,6 +91,7 @@ struct CostProgram
     double bar_r2 = 0;                       // hard keep-out barrier: the running cost is +inf when |p - bar_c|^2 < bar_r2 (C12 only)
     double bar_c[kMaxDim] = {};
     double seg_w = 0;                        // whole running cost multiplied by (1 + seg_w (i mod 5))
+    double out_scale = 1.0;                  // ... and by out_scale (1e-308 and below: every term the integrator sees is subnormal; C12 only)
     bool usesClass[5] = {false, false, false, false, false}; // which of gp gv ga gj gs are ever written
     bool usesTime = false;
     bool conditionalWrites = false; // outputs are written only at samples where they are non-zero
